@@ -115,10 +115,57 @@ def nestings(t, ty):
     return [(n, typeof(n)) for n in out if typeof(n) is not None]
 
 
+def extra_programs():
+    """Hand-typed programs over receivers and texts the generated signature does not reach: macros on map
+    receivers (keeping all / some / no keys, empty map, map in a variable, nested) and string functions
+    on non-ASCII texts and patterns."""
+    out = []
+    maps = ['{"a": 1, "b": 2}', "{}", "vm", '{1: "x", 2: "y"}', '{"a": {"b": 1}}']
+    preds = ["true", "false", 'k == k', 'k != "a"']
+    for m in maps:
+        for pr in preds:
+            if m == '{1: "x", 2: "y"}' and '"a"' in pr:
+                continue
+            out.append((f"{m}.filter(k, {pr})", "list", "extra:map.filter{}"))
+            for mac in ("all", "exists", "exists_one"):
+                out.append((f"{m}.{mac}(k, {pr})", "bool", f"extra:map.{mac}{{}}"))
+        out.append((f"{m}.map(k, k)", "list", "extra:map.map{}"))
+        out.append((f"{m}.map(k, [k])", "list", "extra:map.map{}"))
+        out.append((f'[1].map(i, {m}.filter(k, true))', "list", "extra:map.filter{}"))
+        out.append((f'{m}.filter(k, true) + {m}.filter(k, false)', "list", "extra:map.filter{}"))
+        out.append((f'size({m}.filter(k, true))', "int", "extra:map.filter{}"))
+    texts = ['"héllo"', '"cafe"', '"ñandú"', '"日本語"', '"😀"', "vs"]
+    pats = ['"l+"', '"caf[eé]"', '"ñ"', '"."', '"^日"', '"😀$"', '"é|e"']
+    for t in texts:
+        for pt in pats:
+            out.append((f"{t}.matches({pt})", "bool", "extra:.matches()"))
+            out.append((f"matches({t}, {pt})", "bool", "extra:matches()"))
+        for fn in ("contains", "startsWith", "endsWith"):
+            for arg in ('"é"', '"l"', '"日"'):
+                out.append((f"{t}.{fn}({arg})", "bool", f"extra:.{fn}()"))
+        out.append((f"size({t})", "int", "extra:size()"))
+        out.append((f'{t} + "é"', "string", "extra:+"))
+        out.append((f'{t} < "é"', "bool", "extra:<"))
+        out.append((f'{t} in ["é", "héllo"]', "bool", "extra:in"))
+        out.append((f'{{"é": 1, "héllo": 2}}.exists(k, k == {t})', "bool", "extra:map.exists{}"))
+        out.append((f'[{t}].filter(s, s.matches("é"))', "list", "extra:.filter{}"))
+        out.append((f'[{t}].all(s, s.matches("é") || true)', "bool", "extra:.all{}"))
+        out.append((f'{t}.matches("é") && true', "bool", "extra:&&"))
+        out.append((f'true && {t}.matches("é")', "bool", "extra:&&"))
+        out.append((f'{t}.matches("é") ? 1 : 2', "int", "extra:?:"))
+        out.append((f'bytes({t})', "bytes", "extra:bytes()"))
+        out.append((f'string(bytes({t}))', "string", "extra:string()"))
+    return out
+
+
 def programs(tier):
     rs = roots()
     out = [(gen.text(t), ty, "root:" + root_name(t)) for t, ty in rs]
     seen = {o[0] for o in out}
+    for tx, ty, where in extra_programs():
+        if tx not in seen:
+            seen.add(tx)
+            out.append((tx, ty, where))
     # nest one representative per (root operator, result type) in quick; every root in thorough
     reps = {}
     for t, ty in rs:
@@ -219,7 +266,7 @@ def run(ctx):
     ctx.part.sample({"programs": [progs[i][:2] for i in (0, len(progs) // 3, len(progs) // 2, len(progs) - 1)]})
     ctx.part.sample({"type_names": TYPE_NAMES})
     ctx.rule = ("every well-typed term (by the reference type checker) with an operator, function, macro or conversion at the root over the leaf alphabet (two literals + one bound variable per CEL kind), "
-                "then " + ("every such term" if ctx.thorough else "one representative per (root, result type)") + " nested one level (operand of every operator accepting its kind, list element, map value, ?: branch, macro body, dyn, size, string); "
+                "plus hand-typed programs (macros on map receivers keeping all/some/no keys; string functions on non-ASCII texts and patterns); then " + ("every such term" if ctx.thorough else "one representative per (root, result type)") + " nested one level (operand of every operator accepting its kind, list element, map value, ?: branch, macro body, dyn, size, string); "
                 "two cases per program: class of the returned value (recursively), and `[type(e) == T for the 12 names]`; programs that raise at run time have no value and are counted as trivial")
     ctx.assumptions = ["the reference type checker covers the signature of mc/gen.py only; terms it cannot type are not enumerated here (C03/C04 still run them)"]
 
